@@ -23,7 +23,7 @@ ASSUMPTIONS = ["Thompson-entropy tables are random: only the table-level arg-max
                "ties within 1e-12 are accepted in any order"]
 N = {"quick": 150, "thorough": 5000}
 REQUIRE = {"quick": {"evaluations_observed": 1500, "tables_checked": 800, "rule_values_checked": 1500, "data_delta_checked": 600,
-                     "direct_joint_calls": 300, "direct_decoupled_calls": 300, "bandit_rounds": 100, "tie_tables": 100, "ad_sample_steps": 10, "ad_refine_steps": 10}}
+                     "direct_joint_calls": 300, "direct_decoupled_calls": 300, "bandit_rounds": 100, "tie_tables": 100, "ad_sample_steps": 10, "ad_refine_steps": 10, "real_model_runs": 40, "batches_with_descending_objective_labels": 10}}
 TIMEOUT = {"quick": 1500, "thorough": 7200}
 ALL = ["PaVeBa", "PaVeBaGP-IH", "PaVeBaGP-DE", "PartialGP-rect", "PartialGP-ell", "VOGP", "EpsilonPAL", "Auer", "DecoupledGP", "VOGP", "PartialGP-rect"]
 
@@ -136,8 +136,37 @@ def ad_run(mon, rng):
             runchecks.check_acquisition_ad(mon, tr, st)
 
 
+def real_model_run(mon, rng):
+    """the real GP wrapper classes (default hyper-parameters, no fitting) receive the data: batch >= 2, unequal costs,
+    so that one batch mixes objectives in non-ascending order"""
+    variant = str(rng.choice(["PartialGP-rect", "PartialGP-rect", "DecoupledGP", "VOGP", "PaVeBaGP-IH"]))
+    over = {"K": int(rng.integers(3, 8)), "m": 2, "batch": int(rng.choice([2, 3, 4])), "cone_families": ["orthant", "theta"],
+            "contraction": float(rng.choice([16, 64])), "model": "real-notrain"}
+    if variant in ("PartialGP-rect", "DecoupledGP"):
+        over["costs"] = [float(c) for c in rng.choice([1.0, 1.04, 1.5, 0.7], size=2)]
+    if variant == "DecoupledGP":
+        over["budget"] = float(rng.choice([6, 10]))
+    case, order = runs.make_case(rng, variant, **over)
+    case["noise_var"] = 1e-3 * case["scale"] ** 2
+    case["max_rounds"] = 12
+    tr = runs.run_case(case, order, mon, max_extra_steps=0)
+    mon.count("real_model_runs")
+    for st in tr.steps:
+        if st["crash"] is None:
+            runchecks.check_acquisition(mon, tr, st)
+            ph = runchecks.phase(st, "evaluating")
+            if ph is not None:
+                reqs = tr.rec.log[ph["req_start"]:ph["req_end"]]
+                for r in reqs:
+                    ei = r["evaluation_index"]
+                    if ei is not None and np.ndim(ei) and len(ei) > 1 and (np.diff(np.asarray(ei)) < 0).any():
+                        mon.count("batches_with_descending_objective_labels")
+
+
 def shard(mon, tier, rng, shard_no, nshards):
     n = max(len(ALL), N[tier] // nshards)
+    for _ in range(3 if tier == "quick" else 20):
+        real_model_run(mon, rng)
     for _ in range(2 if tier == "quick" else 8):
         ad_run(mon, rng)
     for it in range(n):
